@@ -38,6 +38,7 @@ import (
 
 	"verifharness/internal/filex"
 	"verifharness/internal/kit"
+	"verifharness/internal/supervise"
 )
 
 const cs = boson.ChunkSize
@@ -265,7 +266,9 @@ func runFile(sc kit.Scenario, out *kit.Out) error {
 		return filex.Split(p)
 	}
 	tScn := time.Now()
-	defer func() { timing("scn %d enc=%v size=%d ops=%d total %v", sc.Scn, enc, size, len(sc.Ops), time.Since(tScn)) }()
+	defer func() {
+		timing("scn %d enc=%v size=%d ops=%d total %v", sc.Scn, enc, size, len(sc.Ops), time.Since(tScn))
+	}()
 	for _, op := range sc.Ops {
 		name := kit.Str(op, "op")
 		ev := kit.Ev{"op": name, "err": "", "panicked": false}
@@ -479,6 +482,19 @@ func runScaled(sc kit.Scenario, out *kit.Out) error {
 }
 
 func main() {
+	if !supervise.IsChild() {
+		// the joiner and the pipeline start goroutines of their own: a panic there cannot be recovered by the
+		// driver, so scenarios run in child processes and a crash becomes a `crash` event (internal/supervise)
+		kit.Main(func(scs []kit.Scenario, out *kit.Out) error {
+			return supervise.Run(scs, out, func(sc kit.Scenario) kit.Ev {
+				if kit.Str(sc.Par, "kind") == "scaled" {
+					return kit.Ev{"kind": "scaled", "B": kit.Int(sc.Par, "B"), "cs": kit.Int(sc.Par, "cs"), "st": filex.Split(0)}
+				}
+				return kit.Ev{"kind": "file", "s": filex.Split(pair(sc.Par, "s")), "enc": kit.Bool(sc.Par, "enc"), "st": filex.Split(0)}
+			})
+		})
+		return
+	}
 	kit.Main(func(scs []kit.Scenario, out *kit.Out) error {
 		for _, sc := range scs {
 			var err error
